@@ -157,6 +157,9 @@ pub struct StoreState {
     /// per client: fail the request with this 1-based index (counted per client since `reset_counts`)
     pub faults: Vec<Option<(usize, Fault)>>,
     pub counts: Vec<usize>,
+    /// per client: fail the n-th (1-based, counted from when this is set) request of the named
+    /// kind (`get`, `put`, `del`, `list`, `cas`)
+    pub faults_by_kind: Vec<Option<(String, usize, Fault)>>,
 }
 
 pub type Store = Arc<Mutex<StoreState>>;
@@ -167,6 +170,7 @@ pub fn new_store(clients: usize) -> Store {
         at_gate: vec![false; clients],
         faults: vec![None; clients],
         counts: vec![0; clients],
+        faults_by_kind: vec![None; clients],
         ..Default::default()
     }))
 }
@@ -203,7 +207,7 @@ impl Future for Gate {
 }
 
 impl MemService {
-    async fn enter(&self) -> Option<Fault> {
+    async fn enter(&self, kind: &str) -> Option<Fault> {
         Gate {
             store: self.store.clone(),
             client: self.client,
@@ -212,6 +216,15 @@ impl MemService {
         let mut s = self.store.lock().unwrap();
         let c = self.client;
         s.counts[c] += 1;
+        if let Some((k, n, f)) = s.faults_by_kind[c].clone() {
+            if k == kind {
+                if n <= 1 {
+                    s.faults_by_kind[c] = None;
+                    return Some(f);
+                }
+                s.faults_by_kind[c] = Some((k, n - 1, f));
+            }
+        }
         match s.faults[c] {
             Some((i, k)) if i == s.counts[c] => {
                 s.faults[c] = None;
@@ -281,7 +294,7 @@ impl crate::server::cloud::VerifAsyncObjectIterator for ListIter {
 #[async_trait]
 impl crate::server::cloud::VerifService for MemService {
     async fn put(&mut self, name: &str, value: &[u8]) -> Result<()> {
-        let f = self.enter().await;
+        let f = self.enter("put").await;
         if f == Some(Fault::Before) {
             self.log(format!("put {name} -> fault-before"));
             return Err(injected());
@@ -299,7 +312,7 @@ impl crate::server::cloud::VerifService for MemService {
     }
 
     async fn get(&mut self, name: &str) -> Result<Option<Vec<u8>>> {
-        let f = self.enter().await;
+        let f = self.enter("get").await;
         if f == Some(Fault::Before) {
             self.log(format!("get {name} -> fault-before"));
             return Err(injected());
@@ -316,7 +329,7 @@ impl crate::server::cloud::VerifService for MemService {
     }
 
     async fn del(&mut self, name: &str) -> Result<()> {
-        let f = self.enter().await;
+        let f = self.enter("del").await;
         if f == Some(Fault::Before) {
             self.log(format!("del {name} -> fault-before"));
             return Err(injected());
@@ -334,7 +347,7 @@ impl crate::server::cloud::VerifService for MemService {
         prefix: &'a str,
     ) -> Box<dyn crate::server::cloud::VerifAsyncObjectIterator + Send + 'a> {
         // the set of names is fixed when the listing starts (its first request)
-        let _ = self.enter().await;
+        let _ = self.enter("list").await;
         let names: Vec<String> = self
             .store
             .lock()
@@ -360,7 +373,7 @@ impl crate::server::cloud::VerifService for MemService {
         existing_value: Option<Vec<u8>>,
         new_value: Vec<u8>,
     ) -> Result<bool> {
-        let f = self.enter().await;
+        let f = self.enter("cas").await;
         if f == Some(Fault::Before) {
             self.log(format!("cas {name} -> fault-before"));
             return Err(injected());
